@@ -14,5 +14,25 @@ CLAIMED = {
         "Bounded as C01/C04 (quick: own length for one country per signature, all lengths for 8 seeded countries + unknown prefix). InvalidBBANChecksum soundness is part of C06/C07.",
         "3 C05",
     ),
+    "C02": (
+        "Per country, for a symbolic BBAN ranging over all structure-conforming BBANs and a symbolic check-digit pair ranging over all 100 pairs, the real from_bban and the real validating constructor are executed; the solver shows from_bban always returns with digits in 02..98 and that a pair is accepted iff it equals the computed one.",
+        "Unbounded within the country's structure (all BBANs, all pairs); quick: one country per table signature, thorough: all 126.",
+        "3 C02",
+    ),
+    "C03": (
+        "Per country and position, the real pipeline runs on a symbolic valid IBAN and on its single-substitution / adjacent-transposition mutant (same kind, different value); the path on which both are accepted is shown infeasible by the solver.",
+        "quick: one country per signature, boundary + seeded interior positions; thorough: every country x every position >= 2 x both error kinds.",
+        "3 C03",
+    ),
+    "C10": (
+        "For symbolic compact strings with an optional arbitrary whitespace code point in every gap and a free ASCII case bit per letter, the real constructors run on the variant and on the compact form in one path: same outcome, equal objects. For all accepted IBANs/BICs the formatted form equals the reference grouping and re-parsing formatted/str/compact gives an equal object.",
+        "One whitespace slot per gap (runs: Lemma N of C01/C04), ASCII case variants; quick: one country per signature.",
+        "3 C10",
+    ),
+    "C11": (
+        "For all accepted IBANs of each country (symbolic content) every accessor of the real object is compared by the solver with the slice of the input at the reference table's position; parts concatenate to the compact form; re-assembly via from_bban is equal. Same for the four BIC parts (lengths 8, 11).",
+        "quick: one country per table signature; thorough: all 126. Reference positions come from the same JSON files via an independent merge.",
+        "3 C11",
+    ),
 }
 NOT_APPLICABLE = {}
